@@ -20,7 +20,7 @@ pub const C05: PropDef = PropDef {
     id: "C05",
     jobs: jobs_c05,
     required: required_c05,
-    rule: "one case = one push/clear sequence applied to Stride, IndexList, IndexOptimized or Vec<usize>. Exhaustive part: every sequence of length <= L over the alphabet {0, 1, s, 2s, 3s, s-1, u32::MAX, u32::MAX+1, 2^63, usize::MAX, clear} for s in {0, 2, 2^31, 2^63} (depth-first, every prefix checked: len, is_empty, index(i) for all i, iteration with size hints; Stride against a u128 reference acceptor, state unchanged on rejection). Random part: long structured sequences (stride runs, saturation tails, breaks, spills, clears, extend, reserve, with_capacity, merge_regions). Non-trivial = the sequence reaches at least 2 stored elements; distinct = distinct (container, stride, sequence). The two build profiles must produce identical observation digests.",
+    rule: "one case = one push/clear sequence applied to Stride, IndexList, IndexOptimized or Vec<usize>. Exhaustive part: every sequence of length <= L (6 quick, 7 thorough) over the alphabet {0, 1, s, 2s, 3s, s-1, u32::MAX, u32::MAX+1, 2^63, usize::MAX, clear} for s in {0, 2, 2^31, 2^63} (depth-first, every prefix checked: len, is_empty, index(i) for all i, iteration with size hints; Stride against a u128 reference acceptor, state unchanged on rejection). Random part: long structured sequences (stride runs, saturation tails, breaks, spills, clears, extend, reserve, with_capacity, merge_regions). Non-trivial = the sequence reaches at least 2 stored elements; distinct = distinct (container, stride, sequence). The two build profiles must produce identical observation digests.",
     assumptions: &["usize is 64 bits wide", "Stride::index / iteration beyond len is outside the property (callers index below len)"],
 };
 
@@ -59,7 +59,7 @@ fn alphabet(s: usize) -> Vec<Option<usize>> {
 }
 
 fn depth(tier: Tier) -> u64 {
-    tier.pick(5, 7, 2)
+    tier.pick(6, 7, 2)
 }
 
 fn exhaustive_jobs(f: fn(&mut Ctx)) -> Vec<Job> {
